@@ -3,6 +3,7 @@ package main
 // SMT-LIB helpers and the solver racer.
 
 import (
+	"runtime"
 	"bytes"
 	"context"
 	"fmt"
@@ -212,17 +213,34 @@ func solverVersions() map[string]string {
 	return out
 }
 
+// procSem bounds the number of solver processes of this gvc run: a race of seven configurations per
+// obligation on sixteen obligations at once would otherwise oversubscribe the machine.
+var procSem = make(chan struct{}, 2*runtime.NumCPU())
+
+// runOne runs one solver configuration on one query. The budget timeoutS is CPU time of the solver
+// process (ulimit -t), not wall-clock time: a loaded machine must not turn a proof that needs 4 s of
+// work into a timeout, and with it into an alarm. The wall clock only bounds how long we wait at
+// all (8x the budget).
 func runOne(ctx context.Context, sp solverSpec, file string, timeoutS int) (status, output string, dur float64) {
-	argv := sp.argv(file, timeoutS)
-	c, cancel := context.WithTimeout(ctx, time.Duration(timeoutS+2)*time.Second)
+	select {
+	case procSem <- struct{}{}:
+	case <-ctx.Done():
+		return "timeout", "", 0
+	}
+	defer func() { <-procSem }()
+	wall := 8*timeoutS + 5
+	argv := sp.argv(file, wall)
+	c, cancel := context.WithTimeout(ctx, time.Duration(wall+2)*time.Second)
 	defer cancel()
-	cmd := exec.CommandContext(c, argv[0], argv[1:]...)
+	sh := append([]string{"-c", fmt.Sprintf("ulimit -t %d; exec \"$@\"", timeoutS+1), "sh"}, argv...)
+	cmd := exec.CommandContext(c, "/bin/sh", sh...)
 	var buf bytes.Buffer
 	cmd.Stdout = &buf
 	cmd.Stderr = &buf
-	t0 := time.Now()
 	_ = cmd.Run()
-	dur = time.Since(t0).Seconds()
+	if cmd.ProcessState != nil {
+		dur = (cmd.ProcessState.UserTime() + cmd.ProcessState.SystemTime()).Seconds()
+	}
 	output = buf.String()
 	first := ""
 	for _, ln := range strings.Split(output, "\n") {
@@ -239,8 +257,8 @@ func runOne(ctx context.Context, sp solverSpec, file string, timeoutS int) (stat
 	case "timeout":
 		status = "timeout"
 	default:
-		if c.Err() != nil {
-			status = "timeout"
+		if c.Err() != nil || (cmd.ProcessState != nil && !cmd.ProcessState.Exited()) {
+			status = "timeout" // wall clock, or killed by the CPU limit
 		} else {
 			status = "error"
 		}
@@ -333,7 +351,16 @@ func solveFast(file string, timeoutS int, all bool) SolverResult {
 			return r
 		}
 	}
-	return solve(file, timeoutS, all)
+	r := solve(file, timeoutS, all)
+	if !all && r.Status != "unsat" && r.Status != "sat" && timeoutS < 40 {
+		// inconclusive within the quick budget: before this is reported as an undischarged
+		// obligation, give the portfolio a longer run -- a loaded machine must not turn a slow
+		// proof into an alarm (the slowest obligations of the unchanged tree take 3-5 s)
+		r2 := solve(file, 40, false)
+		r2.Time += r.Time
+		return r2
+	}
+	return r
 }
 
 func writeFile(dir, name, content string) string {
